@@ -177,11 +177,13 @@ impl Iterator for VerifPlan {
 ///
 /// `attempt(target index, consistency)` stands for "send the request once on this connection with
 /// this consistency"; the `Ok` string is handed back in [`ExecResult::Completed`].
-pub async fn run_request<F, Fut>(cfg: &ExecConfig, log: ExecLog, attempt: F) -> ExecResult
+pub async fn run_request<F, Fut>(cfg: ExecConfig, log: ExecLog, attempt: F) -> ExecResult
 where
     F: Fn(usize, Consistency) -> Fut,
     Fut: Future<Output = Result<String, RequestAttemptError>>,
 {
+    // Owned (not borrowed) so that the returned future is `'static` and can be polled by a harness executor.
+    let cfg = &cfg;
     let metrics = Arc::new(Metrics::new());
     let lbp = DefaultPolicy::default();
     let params = RequestExecutionParams {
